@@ -243,3 +243,12 @@ def digest_replay(order):
 for _u in UNITS[-3:]:
     _u.replay = digest_replay(_u.name.split('[')[1].rstrip(']'))
 roundtrip.replay = lambda inputs, clause: {'status': 'no-input', 'note': 'structural round trip: see digest replay for the real-code run'}
+
+
+def extra_units():
+    """what is encoded into the read name must be what the layout prescribes: UMI and UMI qualities of barcode-first
+    (CEL-Seq1, 10x) and UMI-first (CEL-Seq2, scCHIC) layouts - C02's layout units, re-verified under this property"""
+    from contracts import c02
+    from pyvc.units import share
+    want = ('layout[CELSeq1_c8_u4]', 'layout[chrom10x_c16_u12]', 'layout[CELSeq2_c8_u6]', 'layout[SCCHIC_384w_c8_u3]')
+    return [share(u, PROP) for u in c02.UNITS if u.name in want]
